@@ -503,8 +503,13 @@ template <class E> struct Runner {
         // ---- violations ----
         int exit_code = 0;
         std::vector<KnownFinding> known = load_known(opt.verif_dir + "/known_findings.json");
+        // by run index, candidates for "hang" last: confirming one of those costs the watchdog time again and again, so they
+        // are only looked at when nothing else was found
         std::sort(agg.violations.begin(), agg.violations.end(),
-                  [](const std::pair<uint64_t, std::pair<Json, Result>> &a, const std::pair<uint64_t, std::pair<Json, Result>> &b) { return a.first < b.first; });
+                  [](const std::pair<uint64_t, std::pair<Json, Result>> &a, const std::pair<uint64_t, std::pair<Json, Result>> &b) {
+                      bool ha = a.second.second.vclass == "hang", hb = b.second.second.vclass == "hang";
+                      return ha != hb ? hb : a.first < b.first;
+                  });
         std::set<std::string> seen;
         Json reported = Json::array();
         int nviol = 0, nknown = 0, unconfirmed = 0, slow_runs = 0;
@@ -512,6 +517,7 @@ template <class E> struct Runner {
             const Result &orig = v.second.second;
             std::string key = orig.vclass + "|" + orig.locus;
             if (seen.count(key) || seen.size() >= 3) continue;
+            if (orig.vclass == "hang" && nviol > 0) continue;
             seen.insert(key);
             Plan plan = E::from_json(v.second.first);
             // determinism gate: alone in a fresh process first; if that does not reproduce, with the earlier runs of
@@ -556,7 +562,7 @@ template <class E> struct Runner {
             int used = 0;
             Prelude full_prelude = prelude;
             // every execution that reproduces a hang costs the full watchdog time: shrink those only a little
-            Plan minp = opt.no_shrink ? plan : minimise(plan, orig, was_hang ? 6 : 400, used, prelude);
+            Plan minp = opt.no_shrink ? plan : minimise(plan, orig, was_hang ? 3 : 400, used, prelude);
             Result fin = run_exec(minp, prelude);
             if (!same_violation(orig, fin)) { minp = plan; prelude = full_prelude; fin = b; } // never report an unconfirmed minimisation
             // known finding?
